@@ -332,6 +332,69 @@ def _neighbour_scan(f: Func) -> Optional[ast.AST]:
     return None
 
 
+def _run_scan(ctx: Ctx, f: Func) -> Optional[Tuple[ast.AST, Optional[ast.AST], str]]:
+    """The grouping idiom "scan of runs": a loop whose test compares a component of `xs[j]` with a local that was read from
+    the same component of `xs[i]` (`head = xs[start][0]` ... `while .. xs[end][0] == head`). Such a scan forms a group from
+    adjacent elements only - like groupby - so `xs` has to be sorted by that component before the scan.
+    Returns (scan loop, the sort that dominates it or None, why) or None when the idiom is not there."""
+    def comp_of(e: ast.AST) -> Optional[Tuple[str, str]]:
+        # xs[<index>][<c>]  ->  (xs, dump(c))
+        if isinstance(e, ast.Subscript) and isinstance(e.value, ast.Subscript) and isinstance(e.value.value, ast.Name):
+            return e.value.value.id, ast.dump(e.slice)
+        return None
+    heads: Dict[str, Tuple[str, str]] = {}
+    for n in f.own_nodes():
+        if isinstance(n, ast.Assign) and len(n.targets) == 1 and isinstance(n.targets[0], ast.Name):
+            c = comp_of(n.value)
+            if c is not None:
+                heads[n.targets[0].id] = c
+    for n in f.own_nodes():
+        if not isinstance(n, ast.While):
+            continue
+        for t in ast.walk(n.test):
+            if isinstance(t, ast.Compare) and len(t.ops) == 1 and isinstance(t.ops[0], ast.Eq):
+                sides = [t.left, t.comparators[0]]
+                for a, b in (sides, sides[::-1]):
+                    ca = comp_of(a)
+                    if ca is not None and isinstance(b, ast.Name) and heads.get(b.id) == ca:
+                        xs, comp = ca
+                        want = "lambda:" + comp
+                        cfg = cfg_of(f)
+                        for m in f.own_nodes():
+                            call = None
+                            if isinstance(m, ast.Expr) and isinstance(m.value, ast.Call) and isinstance(m.value.func, ast.Attribute) and m.value.func.attr == "sort" \
+                                    and isinstance(m.value.func.value, ast.Name) and m.value.func.value.id == xs:
+                                call = m.value
+                            elif isinstance(m, ast.Assign) and len(m.targets) == 1 and isinstance(m.targets[0], ast.Name) and m.targets[0].id == xs \
+                                    and isinstance(m.value, ast.Call) and ctx.prog.dotted(f, m.value.func) == "sorted":
+                                call = m.value
+                            if call is None or dominated(ctx, f, n, done_nodes(cfg, m)) is not None:
+                                continue
+                            key = _kw(call, "key", None)
+                            got = None
+                            if isinstance(key, ast.Lambda) and len(key.args.args) == 1 and isinstance(key.body, ast.Subscript) \
+                                    and isinstance(key.body.value, ast.Name) and key.body.value.id == key.args.args[0].arg:
+                                got = "lambda:" + ast.dump(key.body.slice)
+                            if got == want:
+                                return n, m, f"`{unparse(m, 70)}` dominates the scan and sorts by the component the runs are formed on"
+                            return n, None, f"`{unparse(m, 70)}` does not sort by the component `{xs}[..]{unparse(a, 30)[len(unparse(a.value, 30)):]}` the runs are formed on"
+                        return n, None, f"`{xs}` is not sorted on every path to the scan of runs"
+    return None
+
+
+def _run_scan_in(ctx: Ctx, detector: Func) -> Optional[Tuple[Func, Tuple[ast.AST, Optional[ast.AST], str]]]:
+    """the scan of runs in the detector itself or in a package function it hands the paths to (call graph, same module)"""
+    names = [detector.qname] + sorted(q for q in ctx.reachable_funcs([detector.qname]) if q != detector.qname)
+    for q in names:
+        g = ctx.prog.funcs.get(q)
+        if g is None or g.module is not detector.module:
+            continue
+        r = _run_scan(ctx, g)
+        if r is not None:
+            return g, r
+    return None
+
+
 def run(ctx: Ctx) -> None:
     rep = ctx.report
     prog = ctx.prog
@@ -384,6 +447,16 @@ def run(ctx: Ctx) -> None:
                      "counterexample: sorted(['/model', '/model/weights', '/model.meta']) == ['/model', '/model.meta', '/model/weights']: '/model' is a prefix of "
                      "'/model/weights' and no neighbour pair shows it: the evaluation is not rejected"],
                     "neighbour-scan", what="overlapping paths separated by a sibling that sorts below '/' are not detected")
+        elif _run_scan_in(ctx, detector) is not None:
+            scanner, (loop, srt, why) = _run_scan_in(ctx, detector)  # type: ignore
+            n_gb += 1
+            desc = "the runs of equal first segments are formed over input sorted by that segment (a run is made of adjacent elements only)"
+            if srt is not None:
+                rep.ok("C11.R1", scanner.qname, desc + ": " + why, scanner.loc(loop))
+            else:
+                rep.bad("C11.R1", scanner.qname, desc, scanner.loc(loop),
+                        [why, "counterexample shape: ['/f', '/h', '/f/g'] -> the two '/f' entries are not adjacent, overlap not reported"],
+                        "run-scan", what="runs formed over unsorted input: non-adjacent overlapping paths are not detected")
         else:
             rep.unknown("C11.R1", detector.qname, "overlap detector does not use groupby: grouping idiom not recognised", detector.loc())
     rep.floor("C11.R1", n_gb, 1)
